@@ -58,6 +58,14 @@ Accept(e) ==
        [] e.op = "of" -> same /\ LET j == IF e.a1 >= 0 THEN e.a1 ELSE e.a1 + n IN
                                  e.slot = (IF j >= 0 /\ j < mem THEN j ELSE -1)
        [] e.op = "top" -> same /\ e.slot = (IF n > 0 THEN n - 1 ELSE -1)
+       [] e.op = "walk" ->
+            \* every traversal macro visits exactly the contents, front to back resp. back to front; the index loops run
+            \* over 0..n-1; the unchecked accessors point where the checked ones do
+            LET w == e.walk  rv == [i \in 1..n |-> s[n + 1 - i]] IN
+            /\ same
+            /\ w.fwd = s /\ w.fwd2 = s /\ w.rev = rv /\ w.rev2 = rv
+            /\ w.idx = [i \in 1..n |-> i - 1] /\ w.ridx = [i \in 1..n |-> n - i]
+            /\ w.acc = 1 /\ w.getters = <<n, mem, e.pre.siz>>
        [] e.op = "create" ->
             /\ e.post.siz = (IF e.a1 = 0 THEN 1 ELSE e.a1)
             /\ IF isvec THEN t = <<e.val>> ELSE t = [j \in 1..e.a2 |-> e.val] /\ mem2 = e.a2
